@@ -65,6 +65,11 @@ ParseChecks(e) ==
         <<"acyclic", e.ok => ~e.cyclic>>,
         <<"sound", (e.ok /\ ~e.cyclic) => Sound(FromJsonRaw(e.cells))>>,
         <<"post",  (e.ok /\ ~e.cyclic) => e.post \in {"ok", "err"}>>,
+        \* the text / single-root entry points are the same parser: same verdict, and exactly one root where they promise one
+        <<"helpers", /\ e.hpanic = ""
+                     /\ LET n == e.nroots
+                             s == IF n = 1 THEN 1 ELSE -1
+                         IN e.helpers = <<n, n, s, s, s>> >>,
         \* where the input is a conforming bag, the cells returned are the ones it denotes
         <<"same",  (e.ok /\ ~e.cyclic /\ P.ok /\ e.post = "ok" /\ \A i \in 1..Len(P.T) : HashableCell(P.T[i])) => e.roothashes = [k \in 1..Len(P.roots) |-> Hex(RootHashes(P)[k])]>> >>
 JudgeParse(e) == LET cs == ParseChecks(e)
